@@ -1,5 +1,6 @@
 use crate::api::Transformer;
 use crate::http::Request;
+use chrono::Datelike;
 use serde::{Deserialize, Serialize};
 use std::collections::HashMap;
 
@@ -38,7 +39,10 @@ impl Variable {
             VariableKind::RequestPath => Some(request.path_and_query_skipped.original.clone()),
             VariableKind::RequestRemoteAddress => request.remote_addr.map(|addr| addr.to_string()),
             VariableKind::RequestScheme => request.scheme.clone(),
-            VariableKind::RequestTime => request.created_at.map(|d| d.to_rfc2822()),
+            // RFC 2822 cannot represent a year outside 0..=9999 (to_rfc2822 panics on it): such an instant is written in RFC 3339
+            VariableKind::RequestTime => request
+                .created_at
+                .map(|d| if (0..=9999).contains(&d.year()) { d.to_rfc2822() } else { d.to_rfc3339() }),
             VariableKind::Marker(marker_name) => markers_captured.get(marker_name.as_str()).cloned(),
         }
         .unwrap_or_default();
